@@ -63,7 +63,12 @@ func drawFault(src *choice.Src, nclients int) *sw.Fault {
 	return f
 }
 
-var diskFaultKinds = map[string]bool{"cache-bitflip": true, "cache-truncate": true, "cache-write-torn": true, "cache-cross": true}
+// A failed configuration write counts as a disk fault for the heal phase: the client keeps the newer
+// head in memory, goes on authenticating and caching against it, and the next process starts from the
+// older stored head; together with a spliced (stale) answer a cached record can then lie beyond the
+// stored head and cannot be validated until the cache entry is dropped. Failing is allowed there;
+// returning or storing unauthenticated data never is.
+var diskFaultKinds = map[string]bool{"cache-bitflip": true, "cache-truncate": true, "cache-write-torn": true, "cache-cross": true, "config-write-error": true}
 
 // substitutionKinds deliver an AUTHENTIC record that is not the one asked for. The client accepts and
 // caches it under the requested name (it authenticates records, not their relation to the request), so
